@@ -13,23 +13,24 @@ import (
 	"github.com/DataDog/datadog-traceroute/result"
 
 	"verif/props/core"
+	"verif/props/proto"
 )
 
 // golden JSON key sets (the published field names), per object
 var golden = map[string][]string{
-	"results":     {"destination", "e2e_probe", "protocol", "source", "test_run_id", "traceroute"},
-	"source":      {"public_ip"},
-	"destination": {"hostname", "port"},
-	"traceroute":  {"hop_count", "runs"},
-	"hop_count":   {"avg", "max", "min"},
-	"run":         {"destination", "hops", "run_id", "source"},
-	"run.source":  {"ip_address", "port"},
+	"results":              {"destination", "e2e_probe", "protocol", "source", "test_run_id", "traceroute"},
+	"source":               {"public_ip"},
+	"destination":          {"hostname", "port"},
+	"traceroute":           {"hop_count", "runs"},
+	"hop_count":            {"avg", "max", "min"},
+	"run":                  {"destination", "hops", "run_id", "source"},
+	"run.source":           {"ip_address", "port"},
 	"run.destination":      {"ip_address", "port"},
 	"run.destination+rdns": {"ip_address", "port", "reverse_dns"},
-	"hop":         {"ip_address", "reachable", "rtt", "ttl"},
-	"hop+rdns":    {"ip_address", "reachable", "reverse_dns", "rtt", "ttl"},
-	"e2e_probe":   {"jitter", "packet_loss_percentage", "packets_received", "packets_sent", "rtt", "rtts"},
-	"e2e.rtt":     {"avg", "max", "min"},
+	"hop":                  {"ip_address", "reachable", "rtt", "ttl"},
+	"hop+rdns":             {"ip_address", "reachable", "reverse_dns", "rtt", "ttl"},
+	"e2e_probe":            {"jitter", "packet_loss_percentage", "packets_received", "packets_sent", "rtt", "rtts"},
+	"e2e.rtt":              {"avg", "max", "min"},
 }
 
 var hopKinds = []func() net.IP{
@@ -106,8 +107,15 @@ func le(a, b float64) bool { return a <= b+tol*math.Max(1, math.Max(math.Abs(a),
 
 // checkDoc normalises the document and checks every relation of the statement; returns (key, detail).
 func checkDoc(r *result.Results, nRuns int, lens []int) (key string, detail string) {
+	return checkDocN(r, nRuns, lens, false)
+}
+
+// checkDocN: finished = the document comes out of RunTraceroute (already normalised by the real pipeline).
+func checkDocN(r *result.Results, nRuns int, lens []int, finished bool) (key string, detail string) {
 	rtts := append([]float64{}, r.E2eProbe.RTTs...)
-	r.Normalize()
+	if !finished {
+		r.Normalize()
+	}
 	// ids
 	all := []string{r.TestRunID}
 	for _, run := range r.Traceroute.Runs {
@@ -481,10 +489,62 @@ func replay(scn json.RawMessage, choices []int) (string, bool) {
 	return "oracle: ok\n", true
 }
 
+// ---- documents as they come out of the entry points ------------------------------------------------------------
+
+func genRT(tier string) []proto.RTItem {
+	var items []proto.RTItem
+	for _, entry := range []string{"RunTraceroute", "http", "cli"} {
+		for _, c := range [][2]int{{0, 2}, {1, 0}, {2, 2}, {0, 0}, {3, 1}} {
+			for _, dest := range []int{3, 0} {
+				r := proto.RTScn{Hostname: "203.0.113.77", Protocol: "udp", MinTTL: 1, MaxTTL: 4, DelayMs: 50, TimeoutMs: 100, Queries: c[0], E2e: c[1], Dest: dest, IPIDBase: 1600, EchoBase: 160,
+					HTTP: entry == "http", CLI: entry == "cli", Bound: -1}
+				items = append(items, proto.RTItem{Scn: r, Class: fmt.Sprintf("finished-document/%s/runs=%d,e2e=%d/dest-%d", entry, c[0], c[1], dest)})
+			}
+		}
+	}
+	return items
+}
+
+var RF = &proto.RTFamily{ID: "C16", Gen: genRT, Check: func(it *proto.RTItem, r *proto.RTResult) []proto.Issue {
+	if r.Err != nil {
+		return []proto.Issue{{Key: "request-failed", Detail: r.Err.Error()}}
+	}
+	var lens []int
+	for _, run := range r.Res.Traceroute.Runs {
+		lens = append(lens, len(run.Hops))
+	}
+	if len(lens) != it.Scn.Queries || len(r.Res.E2eProbe.RTTs) != it.Scn.E2e {
+		return []proto.Issue{{Key: "counts", Detail: r.Summary()}}
+	}
+	if k, d := checkDocN(r.Res, len(lens), lens, true); k != "" {
+		return []proto.Issue{{Key: k, Detail: d}}
+	}
+	return nil
+}}
+
 func init() {
-	core.Register(&core.Property{ID: "C16", Level: "model_checking",
+	nDoc := func(t string) int { return len(chunks(t)) }
+	docRun, docReplay := run, replay
+	run := func(tier string, idx int, r *core.ScnResult) {
+		if idx >= nDoc(tier) {
+			RF.Run(tier, idx-nDoc(tier), r)
+			return
+		}
+		docRun(tier, idx, r)
+	}
+	replay := func(scn json.RawMessage, choices []int) (string, bool) {
+		var w struct {
+			RT json.RawMessage `json:"rt"`
+		}
+		if json.Unmarshal(scn, &w); w.RT != nil {
+			return RF.Replay(scn, choices)
+		}
+		return docReplay(scn, choices)
+	}
+	core.Register(&core.Property{ID: "C16", Level: "model_checking", NeedsNetns: true,
 		Rule: "every document from a small alphabet: 0..2 runs over all hop lists of length 1..3 over {empty, IPv4 4-byte, IPv4 16-byte, IPv6, IPv4-mapped} (x destination flag x reverse-DNS names), 3 runs over all hop lists of length <=2 (thorough: <=3), and every RTT sample sequence of length 0..5 over {0, 1e-9, 0.1, 1.5, 3, 1e6} (hence every permutation of every multiset); each is normalised by the real code and checked against the relations of the statement, " +
-			"the published JSON key sets (golden list in this package) and a marshal/unmarshal round trip; ids must be pairwise distinct over everything produced in the run; distinct = distinct (runs, hop-count min/max) and (received, loss) classes",
-		Count: func(t string) int { return len(chunks(t)) }, Run: run, Replay: replay, Exhaustive: true,
+			"the published JSON key sets (golden list in this package) and a marshal/unmarshal round trip; ids must be pairwise distinct over everything produced in the run; distinct = distinct (runs, hop-count min/max) and (received, loss) classes; " +
+			"finished documents: requests with run / probe counts incl. 0 through RunTraceroute, the HTTP handler and the CLI over the simulated wire, the returned document checked against the same relations without normalising it again",
+		Count: func(t string) int { return nDoc(t) + RF.Count(t) }, Run: run, Replay: replay, Exhaustive: true,
 		Assumptions: []string{"identifier freshness is observed only as pairwise distinctness over the documents of one run", "floating-point relations use a relative tolerance of 1e-12 (DESIGN.md §6.4)"}})
 }
